@@ -20,6 +20,7 @@ LEVEL = ("Generated-input exploration over multi-modal / anisotropic / degenerat
          "force, every bandwidth finite / symmetric / positive definite whenever the localisation reaches another grid point, "
          "score_samples against the re-implemented mixture, score = sum, and the stated invariances of the log-densities. "
          "No absence claim: strength = the counted distinct non-trivial cases in the evidence.")
+LIFECYCLE = False   # vf/lifecycle.py: an extra SparseKDE fit on the perturbed grid / weights can run into the watchdog (11 of 4000 cases, 20 s each); left off here
 BUDGET = {"quick": 250, "thorough": 2500}
 WATCHDOG = {"quick": 20, "thorough": 60}
 RULE = ("Cases: 20..80 descriptors (thorough 250) in 1..4 dimensions from 1..3 anisotropic clusters, 15% with a coordinate that is a "
